@@ -140,6 +140,9 @@ class C18Check(Check):
                                  cfg["storage"].get("tree_seed", "n/a"), cfg["seeds"], first + 1, len(ra["digests"])),
                     "cls": cfg["storage"]["kind"], "explainer": cfg.get("explainer"),
                     "tree_seed_none": cfg["storage"]["kind"] == "tree" and cfg["storage"].get("tree_seed") is None}
+                h.update(repr(("diverged", j, ra["digests"], rb["digests"])).encode())
+                res["digest"] = None        # the divergence itself is not reproducible; the replay compares the signature
+                res["history_digest"] = h.hexdigest()
                 return res
         res["digest"] = h.hexdigest()
         return res
